@@ -122,6 +122,17 @@ int main(void)
 			}
 		}
 		else if (drv_is(&c, "NiceFar")) {
+			/* the counter is set, 256 messages refill the window, then mlog_nice is tried: bases whose low 8 / 16 / 24 bits
+			 * are zero, reached exactly, just before and just after */
+			static const unsigned bases[] = { 65536, 131072, 0x10000u * 3, 1u << 20, 1u << 24, 1u << 30, 0x7fff0000u, 1024, 0x10100 };
+			static const int offs[] = { 0, 1, 200, 255, 256, -1, -256 };
+			for (unsigned k = 0; k < sizeof(bases) / sizeof(bases[0]); k++)
+				for (unsigned j = 0; j < sizeof(offs) / sizeof(offs[0]); j++) {
+					do_clear();
+					do_setcount(bases[k] - 256 + offs[j]);
+					for (int i = 0; i < 256; i++) do_log(0);
+					do_log(1); do_readsome(); do_log(1); do_dump(); do_readfar();
+				}
 			static const unsigned counts[] = { 65536, 131072, 1u << 20, 1u << 30, 65536 + 256, 0x10000u * 3 };
 			for (unsigned k = 0; k < sizeof(counts) / sizeof(counts[0]); k++) {
 				do_clear();
